@@ -67,6 +67,7 @@ class Template:
         self.args = args  # list of origins (the formatted values)
         self.kinds = kinds  # 'display' / 'debug'
         self.where = term["span"]["at"]
+        self.types = None
 
     def text(self, subst):
         """subst(i, origin) -> replacement text"""
@@ -74,6 +75,48 @@ class Template:
 
     def skeleton(self):
         return "".join(p[1] if p[0] == "lit" else "{%d}" % p[1] for p in self.pieces)
+
+
+def _arg_types(body, fb, arr_op):
+    """formatted types of the argument array of one Arguments::new call (from the generic arguments of the
+    Argument::new_* calls that build its elements); None where not recoverable"""
+    from .util import single_defs
+    import ast
+    defs = single_defs(body)
+
+    def one_def(op):
+        for _ in range(8):
+            if op.get("k") not in ("copy", "move") or op["p"]["proj"]:
+                return None
+            ds = defs.get(op["p"]["l"], [])
+            if len(ds) != 1:
+                return None
+            d = ds[0]
+            if d[0] == "assign" and d[3]["r"]["k"] == "use":
+                op = d[3]["r"]["x"]
+                continue
+            if d[0] == "assign" and d[3]["r"]["k"] == "ref" and d[3]["r"]["p"]["proj"] in ([], ["deref"]):
+                op = {"k": "copy", "p": {"l": d[3]["r"]["p"]["l"], "proj": []}}
+                continue
+            return d
+        return None
+
+    d = one_def(arr_op)
+    if d is None or d[0] != "assign" or d[3]["r"]["k"] != "agg":
+        return None
+    out = []
+    for f in d[3]["r"]["fields"]:
+        e = one_def(f)
+        ty = None
+        if e is not None and e[0] == "call" and "Argument::new_" in callee_name(e[3]["f"], fb):
+            try:
+                ga = e[3]["f"].get("gargs", [])
+                ga = ast.literal_eval(ga) if isinstance(ga, str) else ga
+                ty = [g for g in ga if not g.startswith("'")][0]
+            except Exception:
+                ty = None
+        out.append(ty)
+    return out
 
 
 def templates_of(body, fb, org=None, closures=False):
@@ -97,7 +140,9 @@ def templates_of(body, fb, org=None, closures=False):
                     args.append(a[2][0])
                 else:
                     raise TemplateError("unrecognised formatting argument at %s: %s" % (t["span"]["at"], show(a)[:80]))
-            out.append(Template(body, bi, t, pieces, args, kinds))
+            tp = Template(body, bi, t, pieces, args, kinds)
+            tp.types = _arg_types(body, fb, t["args"][1])
+            out.append(tp)
         elif n == "std::fmt::Arguments::from_str":
             s = org.of_operand(t["args"][0], bi, "t")
             if s[0] == "const" and isinstance(s[2], str):
